@@ -243,6 +243,13 @@ def run_case(case):
         for f in (co.sphdist, co.gcirc):
             probe.attempt(f, float(ra2[i]), float(dec2[i]), args[2], args[3])
             probe.attempt(f, args[2], args[3], float(ra2[i]), float(dec2[i]))
+    # gcirc with the position angle requested as well: the distance part is the same function (judged by the wrapper)
+    with np.errstate(all="ignore"):
+        ga, e = probe.attempt(co.gcirc, *args, getangle=True)
+    if e is None:
+        g0, e0 = probe.attempt(co.gcirc, *args)
+        _rel("getangle-same-distance", e0 is None and isinstance(ga, tuple) and len(ga) == 2 and
+             np.array_equal(np.atleast_1d(ga[0]), np.atleast_1d(g0)), "gcirc(getangle=True) returns another distance than gcirc()", wit)
     # unit options of sphdist
     if form not in ("list", "tuple"):
         r = [np.radians(a) for a in args]
